@@ -40,6 +40,8 @@ type Scenario struct {
 	Deadline time.Duration // budget for the final convergence wait
 	Checkpts []int         // heights of block checkpoints set in the chain parameters
 	Parallel bool          // dial all peers at once instead of in listed order
+	Barrier  bool          // peers hold their first headers reply until every listed peer has connected
+	HoldCF   bool          // peer i+1 is dialled only after peer i has been asked for cfheaders (peer i alone at first)
 }
 
 // Sim is one running scenario.
@@ -53,6 +55,7 @@ type Sim struct {
 	byAddr map[string]*Peer
 	gate   []chan struct{} // gate[i] closed when peer i may be dialled
 	gateMu sync.Mutex
+	allCon chan struct{}
 	wg     sync.WaitGroup
 	closed int32
 	rng    *rand.Rand
@@ -99,7 +102,7 @@ func (a pipeAddr) String() string  { return a.s }
 // start) the real ChainService.
 func New(sc Scenario, rng *rand.Rand, out func(op, obs string)) (*Sim, error) {
 	Setup()
-	s := &Sim{Sc: sc, rng: rng, out: out, byAddr: map[string]*Peer{}}
+	s := &Sim{Sc: sc, rng: rng, out: out, byAddr: map[string]*Peer{}, allCon: make(chan struct{})}
 	s.W = NewWorld(rng)
 	tip := s.W.Extend(s.W.Genesis, sc.Len, "t")
 	s.W.SetHonest(tip)
@@ -119,6 +122,9 @@ func New(sc Scenario, rng *rand.Rand, out func(op, obs string)) (*Sim, error) {
 			f := s.W.FakeHeader(base, b.Variant)
 			f = s.W.FakeHeader(f, "pow")
 			p.own = f
+		}
+		if sc.Barrier {
+			p.barrier = s.allCon
 		}
 		s.Peers = append(s.Peers, p)
 		s.byAddr[addr] = p
@@ -220,7 +226,8 @@ func (s *Sim) Start() error {
 			p := s.Peers[i]
 			dl := time.Now().Add(3 * time.Second)
 			for time.Now().Before(dl) && atomic.LoadInt32(&s.closed) == 0 {
-				if atomic.LoadInt32(&p.Sessions) > 0 && (!p.live() || s.connectedTo(p)) {
+				if atomic.LoadInt32(&p.Sessions) > 0 && (!p.live() || s.connectedTo(p)) &&
+					(!s.Sc.HoldCF || i == len(s.Peers)-1 || atomic.LoadInt32(&p.GotGetCFHeaders) > 0) {
 					break
 				}
 				time.Sleep(3 * time.Millisecond)
@@ -228,6 +235,7 @@ func (s *Sim) Start() error {
 			// give the block manager a moment to see the new peer before the next one
 			time.Sleep(20 * time.Millisecond)
 		}
+		close(s.allCon)
 	}()
 	return nil
 }
@@ -342,8 +350,8 @@ func (s *Sim) settled(o Obs) bool {
 		return false
 	}
 	for _, p := range s.Peers {
-		mustBan := p.B.Kind == "noServices" || p.B.Kind == "liarCFCheckpt" ||
-			(p.B.Kind == "liarCFHeaders" && atomic.LoadInt32(&p.GotGetCFHeaders) > 0)
+		mustBan := p.B.Kind == "noServices" ||
+			((p.B.Kind == "liarCFHeaders" || p.B.Kind == "liarCFCheckpt") && atomic.LoadInt32(&p.Lied) > 0)
 		if mustBan && (!contains(o.Banned, p.Idx) || contains(o.Conn, p.Idx)) {
 			return false
 		}
@@ -351,7 +359,7 @@ func (s *Sim) settled(o Obs) bool {
 			return false
 		}
 	}
-	return o.Current
+	return true
 }
 
 func contains(xs []int, x int) bool {
@@ -378,9 +386,13 @@ func (s *Sim) waitFor(budget time.Duration, cond func(Obs) bool) bool {
 	}
 }
 
-func (s *Sim) announce() {
+// announce: every peer that follows the honest chain announces its new tip
+// (all=true: also the peers on their own branches).
+func (s *Sim) announce(all bool) {
 	for _, p := range s.Peers {
-		p.Announce()
+		if all || p.B.followsHonest() {
+			p.Announce()
+		}
 	}
 }
 
@@ -393,6 +405,15 @@ func (s *Sim) Run() {
 	for _, ev := range s.Sc.Script {
 		switch ev.Kind {
 		case "waitsync":
+			// every listed peer has had its turn to connect, and the client holds the honest tip
+			s.waitFor(budget, func(Obs) bool {
+				select {
+				case <-s.allCon:
+					return true
+				default:
+					return false
+				}
+			})
 			ok := s.waitFor(budget, s.converged)
 			s.out("waitsync", map[bool]string{true: "ok", false: "timeout"}[ok])
 		case "grow":
@@ -401,14 +422,17 @@ func (s *Sim) Run() {
 			nt := s.W.Extend(t, ev.A, letter)
 			s.W.SetHonest(nt)
 			s.out(fmt.Sprintf("grow %d", ev.A), fmt.Sprintf("honest %d:%s", nt.Height, nt.ID))
-			s.announce()
+			s.announce(false)
 		case "reorg":
 			t := s.W.Honest()
 			fork := t.Ancestor(t.Height - int32(ev.A))
 			nt := s.W.Extend(fork, ev.B, s.W.NextLetter())
 			s.W.SetHonest(nt)
 			s.out(fmt.Sprintf("reorg %d %d", ev.A, ev.B), fmt.Sprintf("honest %d:%s", nt.Height, nt.ID))
-			s.announce()
+			s.announce(false)
+		case "announce":
+			s.out("announce", "-")
+			s.announce(true)
 		case "sleep":
 			s.waitFor(time.Duration(ev.A)*time.Millisecond, func(Obs) bool { return false })
 		case "cfilter":
@@ -420,6 +444,19 @@ func (s *Sim) Run() {
 	s.waitFor(150*time.Millisecond, func(Obs) bool { return false })
 	o := s.Observe()
 	s.out("final", o.String()+" "+s.chainCheck())
+	for _, p := range s.Peers {
+		s.out(fmt.Sprintf("asked %d", p.Idx), fmt.Sprintf("getheaders %d getcfcheckpt %d getcfheaders %d getcfilters %d getdata %d sessions %d lied %d",
+			min1(p.GotGetHeaders), min1(p.GotGetCFCheckpt), min1(p.GotGetCFHeaders), min1(p.GotGetCFilters), min1(p.GotGetData),
+			min1(p.Sessions), atomic.LoadInt32(&p.Lied)))
+	}
+}
+
+// min1 canonicalises a message count to 0/1 (the exact count depends on timing)
+func min1(v int32) int {
+	if atomic.LoadInt32(&v) > 0 {
+		return 1
+	}
+	return 0
 }
 
 // getCFilter fetches the filter of the honest block at height h through the
